@@ -47,8 +47,8 @@ HeaderWords(dw, crc16, lc) ==
     <<HPSTART, W(SubSeq(dw, 1, 4), 0), W(SubSeq(dw, 5, 8), 0), W(SubSeq(dw, 9, 12), 0), Dw3(crc16, lc)>>
 
 \* the payload part as a stream of <<symbol, isK>> pairs, then packed four to a word
-DppSyms(pl) ==
-    LET crc == Crc32Of(pl) IN
+\* (crc = Crc32Of(pl) is passed in as a value: callers bind it once, TLC would otherwise re-evaluate it per use)
+DppSyms(pl, crc) ==
     [i \in 1..Len(pl) |-> <<pl[i], 0>>] \o <<<<crc[1], 0>>, <<crc[2], 0>>, <<crc[3], 0>>, <<crc[4], 0>>>>
       \o <<<<END, 1>>, <<END, 1>>, <<END, 1>>, <<EPF, 1>>>>
 PadToWord(sy) == sy \o [i \in 1..((4 - (Len(sy) % 4)) % 4) |-> <<IDL, 0>>]
@@ -58,8 +58,8 @@ PackWords(sy) ==
           sy[4 * j - 3][2] + 2 * sy[4 * j - 2][2] + 4 * sy[4 * j - 1][2] + 8 * sy[4 * j][2])]
 
 \* everything after the header for a data header
-DppWords(delayed, pl) ==
-    <<DPPSTART>> \o (IF delayed THEN <<DPPABORT>> ELSE PackWords(PadToWord(DppSyms(pl))))
+DppWords(delayed, pl, crc) ==
+    <<DPPSTART>> \o (IF delayed THEN <<DPPABORT>> ELSE PackWords(PadToWord(DppSyms(pl, crc))))
 
 \* the data header DataPacketTransmitter composes from its parameters (DW0: type, route string 0,
 \* device address; DW1: data sequence, EOB 0, direction, endpoint, setup 0, length; DW2: 0)
@@ -86,17 +86,20 @@ HdrOf(r) == IF "params" \in DOMAIN r
                   seq |-> 0, rsv |-> 0, hub |-> 0, dl |-> 0, df |-> 0]
             ELSE r.hdr
 
-Load(x, r) ==
+Load(x, r, crc) ==
     LET h  == HdrOf(r)
         dp == IsDataHeader(h.dw)
-        tl == IF dp THEN DppWords(h.dl = 1, r.pl) ELSE <<>>
+        tl == IF dp THEN DppWords(h.dl = 1, r.pl, crc) ELSE <<>>
     IN [x EXCEPT !.st = "busy", !.dw = h.dw, !.crc16 = HdrCrc16(h.dw),
                  !.lc = LinkCtl(h.seq, h.rsv, h.hub, h.dl, h.df), !.free = r.free, !.pl = r.pl,
                  !.isdata = dp, !.delayed = (h.dl = 1), !.tail = tl, !.k = 1,
                  !.lat = 0, !.maxlat = r.maxlat, !.consumed = 0, !.npk = x.npk + 1, !.nodone = r.nodone]
 
 \* state in which the outputs of the cycle are judged: a request is accepted in its own cycle
-Eff(x, r) == IF x.st = "idle" /\ r.gen THEN Load(x, r) ELSE x
+Eff(x, r, crc) == IF x.st = "idle" /\ r.gen THEN Load(x, r, crc) ELSE x
+\* the CRC-32 a start record needs (the payload's, when a payload will be sent)
+StartCrc(x, r) == IF r.e = "cyc" /\ x.st = "idle" /\ r.gen /\ IsDataHeader(HdrOf(r).dw) /\ HdrOf(r).dl = 0
+                  THEN Crc32Of(r.pl) ELSE <<0, 0, 0, 0>>
 
 \* link control word expected in DW3: the sequence number is the observed one when the DUT assigns it
 LcFor(y, w) == IF y.free THEN y.lc - (y.lc % 8) + (Hi16(w) % 8) ELSE y.lc
@@ -188,7 +191,7 @@ RxFailing(x, r) ==
 JudgeE(x, y, r) ==
     IF r.e = "rx" THEN [f |-> RxFailing(x, r), n |-> x]
     ELSE [f |-> TxFailingE(y, r), n |-> TxNextE(y, r)]
-EffOf(x, r) == IF r.e = "rx" THEN x ELSE Eff(x, r)
+EffOf(x, r, crc) == IF r.e = "rx" THEN x ELSE Eff(x, r, crc)
 
 -----------------------------------------------------------------------------
 (* A receiver written from the standard, for the round-trip theorem on the *)
